@@ -157,12 +157,22 @@ impl FileImage {
     pub fn from_json(json_str: &str) -> Result<FileImage,DYNERR> {
         let parsed = json::parse(json_str)?;
         let fimg_version = FileImage::parse_str("fimg_version",&parsed)?;
+        // the version must be X.Y.Z with numeric parts, otherwise it is a format error (version_tuple would panic)
+        let vers_parts: Vec<&str> = fimg_version.split(".").collect();
+        if vers_parts.len()!=3 || vers_parts.iter().any(|s| usize::from_str(s).is_err()) {
+            log::error!("file image version `{}` is malformed",fimg_version);
+            return Err(Box::new(Error::FileFormat));
+        }
         let vers_tup = Self::version_tuple(&fimg_version);
         if vers_tup < (2,0,0) {
             log::error!("file image v2 or higher is required");
             return Err(Box::new(Error::FileFormat));
         }
         let fs = Self::parse_str("file_system",&parsed)?;
+        if ![A2_DOS,A2_PASCAL,PRODOS,CPM,FAT].contains(&fs.as_str()) {
+            log::error!("file image has unknown file system `{}`",fs);
+            return Err(Box::new(Error::FileFormat));
+        }
         let chunk_len = Self::parse_usize("chunk_len", &parsed)?;
         let fs_type = Self::parse_hex_to_vec("fs_type",&parsed)?;
         let aux = Self::parse_hex_to_vec("aux",&parsed)?;
